@@ -283,20 +283,26 @@ pub mod prelude {
 
     // a string slice is determined by its bytes / by its chars; it fits in memory
     #[verifier::external_body]
-    pub broadcast proof fn axiom_str_ext_bytes(a: &str, b: &str)
-        ensures #[trigger] sb(a) == #[trigger] sb(b) ==> a == b
-    {}
-    #[verifier::external_body]
     pub broadcast proof fn axiom_str_ext_chars(a: &str, b: &str)
         ensures #[trigger] a@ == #[trigger] b@ ==> a == b
     {}
+    /// PROVED: equal bytes decode to equal chars (vstd::utf8), hence equal slices
+    pub broadcast proof fn lemma_str_ext_bytes(a: &str, b: &str)
+        ensures #[trigger] sb(a) == #[trigger] sb(b) ==> a == b
+    {
+        if sb(a) == sb(b) {
+            vstd::utf8::encode_utf8_decode_utf8(a@);
+            vstd::utf8::encode_utf8_decode_utf8(b@);
+            axiom_str_ext_chars(a, b);
+        }
+    }
     #[verifier::external_body]
     pub broadcast proof fn axiom_str_len_bound(a: &str)
         ensures #[trigger] sb(a).len() <= isize::MAX
     {}
 
     /// bytes of an owned String / of a `Cow<str>`
-    pub uninterp spec fn string_bytes(s: String) -> Seq<u8>;
+    pub open spec fn string_bytes(s: String) -> Seq<u8> { vstd::utf8::encode_utf8(s@) }
     pub open spec fn cow_str_bytes(c: std::borrow::Cow<'_, str>) -> Seq<u8> {
         match c { std::borrow::Cow::Borrowed(s) => sb(s), std::borrow::Cow::Owned(s) => string_bytes(s) }
     }
@@ -332,23 +338,58 @@ pub mod prelude {
     pub fn str_get_to<'a>(s: &'a str, b: usize) -> (r: Option<&'a str>)
         ensures r is Some == str_cut_ok(sb(s), b as int), r matches Some(t) ==> sb(t) == sb(s).subrange(0, b as int)
     { s.get(..b) }
-    // UTF-8 facts (vstd::utf8): an ASCII byte starts a character and ends one; both ends are boundaries
-    #[verifier::external_body]
-    pub broadcast proof fn axiom_boundary_ascii(b: Seq<u8>, i: int)
+    // UTF-8 facts: an ASCII byte starts a character and ends one; both ends are boundaries.
+    // PROVED here from vstd::utf8's definitions and lemmas (no longer assumed).
+    pub broadcast proof fn lemma_boundary_ascii(b: Seq<u8>, i: int)
         ensures vstd::utf8::valid_utf8(b) && 0 <= i < b.len() && b[i] < 128 ==> #[trigger] vstd::utf8::is_char_boundary(b, i)
-    {}
-    #[verifier::external_body]
-    pub broadcast proof fn axiom_boundary_after_ascii(b: Seq<u8>, i: int)
+    {
+        if vstd::utf8::valid_utf8(b) && 0 <= i < b.len() && b[i] < 128 {
+            vstd::utf8::is_char_boundary_iff_not_is_continuation_byte(b, i);
+        }
+    }
+    /// a one-byte (ASCII) character that starts at a boundary ends at a boundary (induction over the scalars of `b`)
+    pub proof fn lemma_boundary_step_ascii(b: Seq<u8>, i: int)
+        requires vstd::utf8::valid_utf8(b), 0 < i <= b.len(), b[i - 1] < 128, vstd::utf8::is_char_boundary(b, i - 1)
+        ensures vstd::utf8::is_char_boundary(b, i)
+        decreases b.len()
+    {
+        if i - 1 == 0 {
+            assert(vstd::utf8::is_leading_byte_width_1(b[0]));
+            assert(vstd::utf8::length_of_first_scalar(b) == 1);
+            assert(vstd::utf8::is_char_boundary(vstd::utf8::pop_first_scalar(b), 0));
+        } else {
+            let l = vstd::utf8::length_of_first_scalar(b);
+            let p = vstd::utf8::pop_first_scalar(b);
+            assert(vstd::utf8::valid_utf8(p));
+            assert(1 <= l <= 4);
+            assert(vstd::utf8::is_char_boundary(p, i - 1 - l));
+            if i - 1 - l < 0 { assert(false); }
+            assert(p[i - 1 - l] == b[i - 1]);
+            lemma_boundary_step_ascii(p, i - l);
+        }
+    }
+    pub broadcast proof fn lemma_boundary_after_ascii(b: Seq<u8>, i: int)
         ensures vstd::utf8::valid_utf8(b) && 0 < i <= b.len() && b[i - 1] < 128 ==> #[trigger] vstd::utf8::is_char_boundary(b, i)
-    {}
-    #[verifier::external_body]
-    pub broadcast proof fn axiom_boundary_ends(b: Seq<u8>)
+    {
+        if vstd::utf8::valid_utf8(b) && 0 < i <= b.len() && b[i - 1] < 128 {
+            vstd::utf8::is_char_boundary_iff_not_is_continuation_byte(b, i - 1);
+            lemma_boundary_step_ascii(b, i);
+        }
+    }
+    pub broadcast proof fn lemma_boundary_ends(b: Seq<u8>)
         ensures vstd::utf8::valid_utf8(b) ==> vstd::utf8::is_char_boundary(b, 0) && #[trigger] vstd::utf8::is_char_boundary(b, b.len() as int)
-    {}
-    #[verifier::external_body]
-    pub broadcast proof fn axiom_cow_str_valid(c: std::borrow::Cow<'_, str>)
+    {
+        if vstd::utf8::valid_utf8(b) { vstd::utf8::is_char_boundary_start_end_of_seq(b); }
+    }
+    /// PROVED: both variants of a `Cow<str>` hold the UTF-8 encoding of a char sequence
+    pub broadcast proof fn lemma_cow_str_valid(c: std::borrow::Cow<'_, str>)
         ensures vstd::utf8::valid_utf8(#[trigger] cow_str_bytes(c))
-    {}
+    {
+        match c {
+            std::borrow::Cow::Borrowed(s) => { vstd::utf8::encode_utf8_valid_utf8(s@); },
+            std::borrow::Cow::Owned(s) => { vstd::utf8::encode_utf8_valid_utf8(s@); },
+        }
+    }
 
     /// pattern searches, by pattern type (str::starts_with / ends_with / find are generic over
     /// the unstable `Pattern` trait); the axioms below fix them for `&str` and `char` patterns
@@ -446,10 +487,6 @@ pub mod prelude {
         ensures r == from_str_spec::<F>(sb(s));
 
     // `"".parse::<u16>()` is an error (IntErrorKind::Empty)
-    #[verifier::external_body]
-    pub broadcast proof fn axiom_u16_parse_empty(s: Seq<u8>)
-        ensures s.len() == 0 ==> #[trigger] from_str_spec::<u16>(s) is Err
-    {}
 
     // std's address parsers accept only texts over the address alphabets: decimal digits and '.'
     // for IPv4; hexadecimal digits, ':' and '.' for IPv6 (so no space, CR or other letter)
@@ -487,11 +524,48 @@ pub mod prelude {
                     ==> from_str_spec::<u16>(s) is Ok,
     {}
 
+    /// PROVED from axiom_u16_text: `"".parse::<u16>()` is an error (IntErrorKind::Empty)
+    pub broadcast proof fn lemma_u16_parse_empty(s: Seq<u8>)
+        ensures s.len() == 0 ==> #[trigger] from_str_spec::<u16>(s) is Err
+    {
+        axiom_u16_text(s);
+    }
+
     // ---- std Display of addresses and ports (core::fmt is outside Verus): what `to_string` prints.
     // Assumed round-trip facts of std: Display then FromStr is the identity, with bounded lengths.
     pub uninterp spec fn display_ipv4(a: Ipv4Addr) -> Seq<u8>;
     pub uninterp spec fn display_ipv6(a: Ipv6Addr) -> Seq<u8>;
-    pub uninterp spec fn display_u16(x: u16) -> Seq<u8>;
+    /// canonical decimal text of a natural number (what std's integer Display prints)
+    pub open spec fn dec_digits(n: nat) -> Seq<u8>
+        decreases n
+    {
+        if n < 10 { seq![(48 + n) as u8] } else { dec_digits(n / 10).push((48 + n % 10) as u8) }
+    }
+    pub open spec fn display_u16(x: u16) -> Seq<u8> { dec_digits(x as nat) }
+    pub proof fn lemma_dec_digits(n: nat)
+        ensures dec_digits(n).len() >= 1, all_digits(dec_digits(n)), dec_value(dec_digits(n)) == n,
+            dec_digits(n).len() == 1 || dec_digits(n)[0] != 48u8,
+            n < 10 ==> dec_digits(n).len() == 1,
+            10 <= n < 100 ==> dec_digits(n).len() == 2,
+            100 <= n < 1000 ==> dec_digits(n).len() == 3,
+            1000 <= n < 10000 ==> dec_digits(n).len() == 4,
+            10000 <= n < 100000 ==> dec_digits(n).len() == 5,
+        decreases n
+    {
+        let d = dec_digits(n);
+        if n < 10 {
+            assert(d =~= seq![(48 + n) as u8]);
+            assert(d.subrange(0, 0).len() == 0);
+            assert(dec_value(d.subrange(0, 0)) == 0);
+        } else {
+            lemma_dec_digits(n / 10);
+            let p = dec_digits(n / 10);
+            assert(d.subrange(0, d.len() - 1) =~= p);
+            assert(d[d.len() - 1] == (48 + n % 10) as u8);
+            assert(d[0] == p[0]);
+            assert(p.len() == 1 ==> p[0] != 48u8) by { if p.len() == 1 { assert(dec_value(p.subrange(0, 0)) == 0); assert(p.subrange(0, p.len() - 1) =~= p.subrange(0, 0)); } };
+        }
+    }
     #[verifier::external_body]
     pub broadcast proof fn axiom_display_ipv4(a: Ipv4Addr)
         ensures from_str_spec::<Ipv4Addr>(#[trigger] display_ipv4(a)) == Ok::<Ipv4Addr, std::net::AddrParseError>(a), display_ipv4(a).len() <= 15
@@ -500,11 +574,13 @@ pub mod prelude {
     pub broadcast proof fn axiom_display_ipv6(a: Ipv6Addr)
         ensures from_str_spec::<Ipv6Addr>(#[trigger] display_ipv6(a)) == Ok::<Ipv6Addr, std::net::AddrParseError>(a), display_ipv6(a).len() <= 39
     {}
-    #[verifier::external_body]
-    pub broadcast proof fn axiom_display_u16(x: u16)
+    /// PROVED (display_u16 is the canonical decimal text; that std prints it is the assumption on `fmt_arg`)
+    pub broadcast proof fn lemma_display_u16(x: u16)
         ensures 1 <= (#[trigger] display_u16(x)).len() <= 5, all_digits(display_u16(x)), dec_value(display_u16(x)) == x,
             display_u16(x).len() == 1 || display_u16(x)[0] != 48u8
-    {}
+    {
+        lemma_dec_digits(x as nat);
+    }
 
     // R20: formatting.  A `Formatter` is modelled by the bytes written to it so far.
     pub uninterp spec fn fmt_out(f: std::fmt::Formatter<'_>) -> Seq<u8>;
@@ -513,6 +589,9 @@ pub mod prelude {
     impl DisplayBytes for Ipv4Addr { open spec fn display_bytes(&self) -> Seq<u8> { display_ipv4(*self) } }
     impl DisplayBytes for Ipv6Addr { open spec fn display_bytes(&self) -> Seq<u8> { display_ipv6(*self) } }
     impl DisplayBytes for u16 { open spec fn display_bytes(&self) -> Seq<u8> { display_u16(*self) } }
+    /// decimal text of a usize (only its existence is used: v2 `Header`'s Display, C03)
+    pub open spec fn display_usize(x: usize) -> Seq<u8> { dec_digits(x as nat) }
+    impl DisplayBytes for usize { open spec fn display_bytes(&self) -> Seq<u8> { display_usize(*self) } }
     #[verifier::external_body]
     pub fn fmt_lit(f: &mut std::fmt::Formatter<'_>, s: &str) -> (r: std::fmt::Result)
         ensures r is Ok ==> fmt_out(*final(f)) == fmt_out(*old(f)) + sb(s)
@@ -521,6 +600,12 @@ pub mod prelude {
     pub fn fmt_arg<T: std::fmt::Display + DisplayBytes>(f: &mut std::fmt::Formatter<'_>, x: &T) -> (r: std::fmt::Result)
         ensures r is Ok ==> fmt_out(*final(f)) == fmt_out(*old(f)) + x.display_bytes()
     { write!(f, "{}", x) }
+    /// R20, a hole with a format spec (`{:?}`, `{:#X}`, ..): std's printer for the argument is trusted
+    /// to return; WHAT it prints is left unspecified (only that earlier output is kept)
+    #[verifier::external_body]
+    pub fn fmt_arg_styled<T: ?Sized>(f: &mut std::fmt::Formatter<'_>, x: &T) -> (r: std::fmt::Result)
+        ensures r is Ok ==> fmt_out(*old(f)).is_prefix_of(fmt_out(*final(f)))
+    { unimplemented!() }
     #[verifier::external_body]
     pub broadcast proof fn axiom_cow_as_ref_str<'a, 'b>(c: &'b std::borrow::Cow<'a, str>)
         ensures sb(#[trigger] cow_as_ref_spec::<str>(c)) == cow_str_bytes(*c)
@@ -550,10 +635,13 @@ pub mod prelude {
     pub assume_specification[ std::str::Utf8Error::error_len ](e: &std::str::Utf8Error) -> (r: Option<usize>);
     pub assume_specification[ std::str::Utf8Error::valid_up_to ](e: &std::str::Utf8Error) -> (r: usize);
     // every &str holds valid UTF-8
-    #[verifier::external_body]
-    pub broadcast proof fn axiom_str_valid_utf8(a: &str)
+    /// PROVED: a &str is the encoding of its chars (vstd), and encodings are valid UTF-8
+    pub broadcast proof fn lemma_str_valid_utf8(a: &str)
         ensures valid_utf8(#[trigger] sb(a)), vstd::utf8::valid_utf8(sb(a))
-    {}
+    {
+        reveal(valid_utf8);
+        vstd::utf8::encode_utf8_valid_utf8(a@);
+    }
 
     // R13: the split iterator of v1::parse_line.  `Parts::new(h, n)` is
     // `h.splitn(n, |c| c == ' ' || c == '\r').peekable()`; its remaining items are modelled by `rem()`.
@@ -598,18 +686,18 @@ pub mod prelude {
         axiom_cow_as_ref_bytes, axiom_cow_deref_bytes, lemma_bitor_comm_u8,
     }
     pub broadcast group prelude_str_axioms {
-        axiom_str_ext_bytes, axiom_str_ext_chars, axiom_str_len_bound, axiom_pat_starts_str, axiom_pat_ends_str,
+        lemma_str_ext_bytes, axiom_str_ext_chars, axiom_str_len_bound, axiom_pat_starts_str, axiom_pat_ends_str,
         axiom_pat_starts_char, axiom_pat_find_char, axiom_cow_deref_str, axiom_cow_as_ref_str, lemma_first_index_bounds, lemma_first_index_prefix,
-        axiom_u16_parse_empty, axiom_slice_len_bound,
+        lemma_u16_parse_empty, axiom_slice_len_bound,
     }
     pub broadcast group prelude_parse_axioms {
         axiom_ipv4_text_no_sep, axiom_ipv6_text_no_sep, axiom_u16_text,
     }
     pub broadcast group prelude_display_axioms {
-        axiom_display_ipv4, axiom_display_ipv6, axiom_display_u16,
+        axiom_display_ipv4, axiom_display_ipv6, lemma_display_u16,
     }
     pub broadcast group prelude_utf8_axioms {
-        axiom_boundary_ascii, axiom_boundary_after_ascii, axiom_boundary_ends, axiom_cow_str_valid, axiom_str_valid_utf8,
+        lemma_boundary_ascii, lemma_boundary_after_ascii, lemma_boundary_ends, lemma_cow_str_valid, lemma_str_valid_utf8,
     }
     }
 }
